@@ -134,6 +134,7 @@ static void *addr_tc, *addr_thd, *addr_cond;
 static int *addr_tcvar;   /* dsh.c's threadcount, read at unlock events (observed, never written) */
 static int uyield;
 static int pcfail, pcfailed;
+static int sigeintr, sigeintr_armed;
 static int is_static(void *p) { return p == addr_tc || p == addr_thd || p == addr_cond; }
 
 static int mtx_id(void *m)
@@ -533,7 +534,10 @@ int __wrap_pthread_cancel(pthread_t th)
 }
 int __wrap_sigwait(const sigset_t *set, int *sig)
 {
+    /* SCHED_SIGEINTR: the call that follows a delivered signal fails once with EINTR (as the raw system call can), leaving *sig alone */
+    if (sigeintr && sigeintr_armed) { sigeintr_armed = 0; return EINTR; }
     yield_op(OP_SIGWAIT);
+    sigeintr_armed = 1;
     *sig = sig_pending;
     sig_pending = 0;
     tr("SIGWAIT %s got %d", who(self), *sig);
@@ -749,6 +753,7 @@ int main(int argc, char **argv)
     if ((s = getenv("SCHED_MAXSTEP"))) max_steps = atol(s);
     if ((s = getenv("SCHED_UYIELD"))) uyield = atoi(s);
     if ((s = getenv("SCHED_PCFAIL"))) pcfail = atoi(s);
+    if ((s = getenv("SCHED_SIGEINTR"))) sigeintr = atoi(s);
     if ((s = getenv("SCHED_PB"))) {
         char *dup = strdup(s), *save = NULL;
         pb_mode = 1;
